@@ -10,20 +10,21 @@ CONFIG = {
                  "specification model on queries parsed by the real spargebra",
     "level_text": "Proof (unbounded: all datasets, patterns, bindings) about the executable model of sparql/src: the recursive BGP matcher "
                   "(pre-filter, all-bound shortcut, populate_bindings on variables / blank placeholders / quoted-triple patterns) returns exactly "
-                  "the algebra's pattern instance mappings with their multiplicities and never panics; UNION / FILTER / BIND / GRAPH <iri> / GRAPH ?g (pre-binding = join, for BGP/UNION/FILTER bodies over a dataset with a named graph) / "
+                  "the algebra's pattern instance mappings with their multiplicities and never panics; UNION / FILTER / BIND / GRAPH <iri> / GRAPH ?g (pre-binding = join, for BGP/UNION/FILTER bodies, on every dataset) / "
                   "projection / DISTINCT / OFFSET-LIMIT / ASK equal SPARQL 1.1 section 18; every constructor outside the fragment, CONSTRUCT, "
                   "DESCRIBE and dataset clauses yield NotImplemented per the dispatch table regenerated from exec.rs / wrapper.rs on every run. "
                   "The model is tied to the real engine differentially (LightDataset and FastDataset, queries parsed by the real spargebra, "
                   "0 disagreements required). Sub-selects, BIND or nested GRAPH ?y inside GRAPH ?g, and the value-level expression operators "
-                  "(=, <, &&, ||, STR, LANG, DATATYPE) are covered by the differential against the executable specification only; five deviations "
-                  "there are known findings with kernel-checked witnesses.",
+                  "(=, <, STR, LANG, DATATYPE) are covered by the differential against the executable specification only; three deviations "
+                  "there are known findings with kernel-checked witnesses (two more were repaired in /repo: e4da433, d984918; their inputs "
+                  "stay in corpus/C13).",
     "level_note": "Trusted: the transcription of SPARQL 1.1 sections 17/18 (SparqlSpec.lean); the hand-written implementation model "
                   "(Sparql.lean) up to the differential; spargebra; the in-memory store as a quad set (C01). eval_correct is _partial: it "
-                  "excludes sub-selects, restricts what may stand inside GRAPH ?g, and assumes ExprOK (proved for BOUND/sameTerm/isIRI/isBlank/isLiteral and negations); "
+                  "excludes sub-selects, restricts what may stand inside GRAPH ?g, and assumes ExprOK (proved for BOUND/sameTerm/isIRI/isBlank/isLiteral closed under !, ||, &&); "
                   "the unrestricted statement is refuted (evalCorrectFull_refuted). Row order is not modelled (OFFSET/LIMIT: size + containment).",
     "tables": ["sparql_dispatch"],
     "lean_targets": ["SophiaProofs.Props.C13", "SophiaProofs.Audit.C13"],
-    "theorems": ['bgp_correct', 'bgp_multiset', 'single_graph_nodup', 'body_correct', 'graph_var_correct', 'eval_correct_partial', 'ask_correct', 'slice_sound', 'dispatch_total', 'unsupported_err', 'fragment_refused', 'dispatch_model', 'query_dispatch', 'spec_refuses', 'no_panic', 'exprOK_termlevel', 'evalD_none', 'evalCorrectFull_refuted', 'dev_empty_named', 'dev_graph_prebind', 'dev_proj_leak', 'dev_or_strict', 'dev_ebv_illtyped'],
+    "theorems": ['bgp_correct', 'bgp_multiset', 'single_graph_nodup', 'body_correct', 'graph_var_correct', 'ask_graph_var_correct', 'eval_correct_partial', 'ask_correct', 'slice_sound', 'dispatch_total', 'unsupported_err', 'fragment_refused', 'dispatch_model', 'query_dispatch', 'spec_refuses', 'no_panic', 'exprOK_termlevel', 'or_and_tables', 'evalD_none', 'evalCorrectFull_refuted', 'dev_graph_prebind', 'dev_proj_leak', 'dev_ebv_illtyped', 'fixed_empty_named', 'fixed_or_strict'],
     "native_ok": [],
     "trivial_re": r"^skip|errclass=notimpl|rows=0/|^errclass=none ask=0",
     "rule": "per run: ~100 fixed SPARQL texts (every unsupported operator: OPTIONAL, MINUS, VALUES, aggregates/GROUP BY/HAVING, paths, "
@@ -71,18 +72,6 @@ def c13_proj_leak(failure):
 def c13_graph_prebind(failure):
     """GRAPH ?g { P }: ?g is bound while P is evaluated (FILTER/BIND inside see it; BIND AS ?g is refused)"""
     return _c13_dev(failure, "graphPrebind")
-
-
-@predicate
-def c13_empty_named(failure):
-    """GRAPH ?g { P } over a dataset without named graphs evaluates P against the empty graph"""
-    return _c13_dev(failure, "emptyNamed")
-
-
-@predicate
-def c13_or_strict(failure):
-    """A || B / A && B raise an error when one operand raises one although the other decides"""
-    return _c13_dev(failure, "orStrict")
 
 
 @predicate
